@@ -1,3 +1,4 @@
+import LP.Props.C12Glue
 import LP.Props.GenTables
 import LP.Props.C12
 import LP.Props.C12Exact
@@ -23,3 +24,6 @@ import LP.Props.C12Compl
 #print axioms LP.Gen.consistent_eq
 #print axioms LP.Gen.zpValid_eq
 #print axioms LP.Gen.consistentInterval_eq
+#print axioms LP.epMatches_sound
+#print axioms LP.setMatches_sound
+#print axioms LP.C12_accepted_set_exact
